@@ -440,9 +440,9 @@ impl<'a, T: CellT> Leaf<'a, T> {
     }
 }
 
-fn descend_v<'a, T: CellT>(v: TooDeeView<'a, T>, stack: &[Win], f: &mut dyn FnMut(&mut Leaf<'_, T>)) {
+pub fn descend_v<'a, T: CellT>(v: TooDeeView<'a, T>, stack: &[Win], f: &mut dyn FnMut(Leaf<'_, T>)) {
     match stack.split_first() {
-        None => f(&mut Leaf::V(v)),
+        None => f(Leaf::V(v)),
         Some((w, rest)) => {
             let v2 = v.view(w.s, w.e);
             descend_v(v2, rest, f)
@@ -450,9 +450,9 @@ fn descend_v<'a, T: CellT>(v: TooDeeView<'a, T>, stack: &[Win], f: &mut dyn FnMu
     }
 }
 
-fn descend_vm<'a, T: CellT>(mut v: TooDeeViewMut<'a, T>, stack: &[Win], f: &mut dyn FnMut(&mut Leaf<'_, T>)) {
+pub fn descend_vm<'a, T: CellT>(mut v: TooDeeViewMut<'a, T>, stack: &[Win], f: &mut dyn FnMut(Leaf<'_, T>)) {
     match stack.split_first() {
-        None => f(&mut Leaf::VM(v)),
+        None => f(Leaf::VM(v)),
         Some((w, rest)) => {
             if w.m {
                 let v2 = v.view_mut(w.s, w.e);
@@ -465,7 +465,7 @@ fn descend_vm<'a, T: CellT>(mut v: TooDeeViewMut<'a, T>, stack: &[Win], f: &mut 
     }
 }
 
-fn descend_owned<T: CellT, R: TooDeeOpsMut<T>>(t: &mut R, stack: &[Win], f: &mut dyn FnMut(&mut Leaf<'_, T>)) {
+pub fn descend_owned<T: CellT, R: TooDeeOpsMut<T>>(t: &mut R, stack: &[Win], f: &mut dyn FnMut(Leaf<'_, T>)) {
     let (w, rest) = stack.split_first().expect("non-empty stack");
     if w.m {
         descend_vm(t.view_mut(w.s, w.e), rest, f)
@@ -474,7 +474,7 @@ fn descend_owned<T: CellT, R: TooDeeOpsMut<T>>(t: &mut R, stack: &[Win], f: &mut
     }
 }
 
-fn parse_stack(case: &Value) -> Vec<Win> {
+pub fn parse_stack(case: &Value) -> Vec<Win> {
     case["stack"]
         .as_array()
         .map(|l| {
@@ -559,11 +559,11 @@ fn res_matches<T: CellT>(exp: &Value, got: &Value) -> bool {
     exp.get("v") == got.get("v")
 }
 
-fn u32s(v: &Value) -> Vec<u32> {
+pub fn u32s(v: &Value) -> Vec<u32> {
     v.as_array().map(|l| l.iter().map(|e| e.as_u64().unwrap() as u32).collect()).unwrap_or_default()
 }
 
-fn window_of(flat: &[u32], root_nc: usize, off: (usize, usize), size: (usize, usize)) -> Vec<u32> {
+pub fn window_of(flat: &[u32], root_nc: usize, off: (usize, usize), size: (usize, usize)) -> Vec<u32> {
     let mut v = Vec::new();
     for y in 0..size.1 {
         for x in 0..size.0 {
@@ -628,7 +628,8 @@ pub fn run_case<T: CellT>(case: &Value) -> Outcome {
     };
     let cx = Ctx { base, elem_size: std::mem::size_of::<T>(), root_nc: nc, root_len: nc * nr, off };
 
-    let mut body = |leaf: &mut Leaf<'_, T>| {
+    let mut body = |mut leaf: Leaf<'_, T>| {
+        let leaf = &mut leaf;
         // the receiver must have the size the specification computed for the stack
         let snap0 = leaf.snapshot();
         if (snap0.0, snap0.1) != size {
@@ -696,10 +697,10 @@ pub fn run_case<T: CellT>(case: &Value) -> Outcome {
 
     let built = guarded(|| match &mut rootobj {
         RootObj::Owned(t) => {
-            if stack.is_empty() { body(&mut Leaf::Owned(t)) } else { descend_owned::<T, _>(t, &stack, &mut body) }
+            if stack.is_empty() { body(Leaf::Owned(t)) } else { descend_owned::<T, _>(t, &stack, &mut body) }
         }
         RootObj::Plain(t) => {
-            if stack.is_empty() { body(&mut Leaf::Plain(t)) } else { descend_owned::<T, _>(t, &stack, &mut body) }
+            if stack.is_empty() { body(Leaf::Plain(t)) } else { descend_owned::<T, _>(t, &stack, &mut body) }
         }
         RootObj::Slice(v) => {
             if kind == "slice_v" {
